@@ -427,6 +427,29 @@ func runRevCaseFull(c *revCase) (string, string, map[string]any, []certOut, bool
 				if s.Server != "" {
 					uid = urlIDs.id([]byte(s.Server))
 				}
+				// every server result is labelled with the method that produced it (results.go): OCSP for a responder,
+				// CRL for a distribution point, Unknown (standalone OCSP entry point, non-root: OCSP) for the placeholder without a
+				// server.  A wrong label is reported as a method the certificate's result cannot have.
+				want := -1
+				switch {
+				case s == nil:
+				case s.Server == "":
+					want = int(result.RevocationMethodUnknown)
+					if c.Entry == 1 && i < len(res)-1 {
+						want = int(result.RevocationMethodOCSP)
+					}
+				case i < len(xs) && containsStr(xs[i].OCSPServer, s.Server):
+					want = int(result.RevocationMethodOCSP)
+				case i < len(xs) && containsStr(xs[i].CRLDistributionPoints, s.Server):
+					want = int(result.RevocationMethodCRL)
+				}
+				if want >= 0 && int(s.RevocationMethod) != want {
+					co.Method = int(result.RevocationMethodOCSP) // a method the result cannot have
+					if r.RevocationMethod == result.RevocationMethodOCSP || r.RevocationMethod == result.RevocationMethodUnknown {
+						co.Method = int(result.RevocationMethodCRL)
+					}
+					desc["server_result_label"] = fmt.Sprintf("certificate %d: server result for %q is labelled %v", i, s.Server, s.RevocationMethod)
+				}
 				co.Servers = append(co.Servers, [2]int{int(s.Result), uid})
 				srv = append(srv, fmt.Sprintf("(SRes %s %d)", resTerm(int(s.Result)), uid))
 			}
@@ -537,6 +560,15 @@ func crlFaultHandler(kind string, issuer *Cert) rtHandler {
 		return func(*http.Request) (*http.Response, error) { return httpBody(200, der) }
 	}
 	return func(*http.Request) (*http.Response, error) { return httpBody(503, nil) }
+}
+
+func containsStr(l []string, x string) bool {
+	for _, y := range l {
+		if y == x {
+			return true
+		}
+	}
+	return false
 }
 
 // strictOCSP: a responder that answers only well-formed requests for the certificate it is responsible for, as real
